@@ -77,11 +77,10 @@ class Sodium(material.Fluid):
         g = 511.58
         h = 0.5
         Tcrit = 2503.7  # critical temperature
-        return (
-            critDens
-            + f * (1 - (Tc + 273.15) / Tcrit)
-            + g * (1 - (Tc + 273.15) / Tcrit) ** h
-        ) / 1000.0  # convert from kg/m^3 to g/cc.
+        # the correlation ends at Tcrit, where 1 - T/Tcrit is zero; do not let round-off in the
+        # unit conversion make it negative (a negative base under the power h gives a complex number)
+        x = max(0.0, 1 - (Tc + 273.15) / Tcrit)
+        return (critDens + f * x + g * x**h) / 1000.0  # convert from kg/m^3 to g/cc.
 
     def specificVolumeLiquid(self, Tk=None, Tc=None):
         """Returns the liquid specific volume in m^3/kg of this material given Tk in K or Tc in C."""
